@@ -7,6 +7,7 @@ import (
 	"strings"
 	"sync"
 	"sync/atomic"
+	"syscall"
 	"testing"
 	"time"
 
@@ -318,9 +319,44 @@ func (d *decoy) host() string { return fmt.Sprintf("127.0.0.1:%d", d.port) }
 // (127.0.0.1) and the clients are told apart in events and at the backends.
 func clientIP(ci int) net.IP { return net.IPv4(127, 0, 0, byte(3+ci)) }
 
+// ipBindAddressNoPort is Linux's IP_BIND_ADDRESS_NO_PORT: bind the source address now,
+// pick the port at connect time per destination. A plain bind(addr:0) reserves the
+// port for the whole namespace (also through TIME_WAIT) and starves the auto-binding
+// connect() calls of everybody else - the proxy's dials to the backend included.
+const ipBindAddressNoPort = 24
+
 func dialTCPFrom(ci int, addr string) (net.Conn, error) {
-	d := net.Dialer{Timeout: 5 * time.Second, LocalAddr: &net.TCPAddr{IP: clientIP(ci)}}
+	d := net.Dialer{Timeout: 5 * time.Second, LocalAddr: &net.TCPAddr{IP: clientIP(ci)},
+		Control: func(network, address string, c syscall.RawConn) error {
+			var serr error
+			if err := c.Control(func(fd uintptr) {
+				serr = syscall.SetsockoptInt(int(fd), syscall.IPPROTO_IP, ipBindAddressNoPort, 1)
+			}); err != nil {
+				return err
+			}
+			return serr
+		}}
 	return d.Dial("tcp", addr)
+}
+
+// guard re-runs a check whose failure is the harness's own (cannot dial, ...).
+func guard(check func() error) error {
+	var err error
+	for i := 0; i < 4; i++ {
+		if err = check(); !isInfra(err) {
+			return err
+		}
+		time.Sleep(time.Duration(i+1) * time.Second)
+	}
+	return err
+}
+
+// infraExit ends the process the way the driver maps to "inconclusive": an INFRA line,
+// no VIOLATION line, non-zero exit.
+func infraExit(err error) {
+	fmt.Printf("INFRA: %v\n", err)
+	vlib.Open(prop).Close()
+	os.Exit(2)
 }
 
 // fromProxyHost checks the peer addresses a backend saw.
